@@ -42,6 +42,35 @@ CLAIMED['C16'] = dict(
     technique=PYVC + '; sub-view loop invariants over the NLRI buffer; bounded differential against an RFC 8955 reference encoder/decoder',
 )
 
+CLAIMED['C02'] = dict(
+    category='proof',
+    text='Contracts on the real decode kernel: UpdateCollection.split (exactly the three RFC 4271 sections for every byte string, 1/2 and 3/1 refusals), AttributeCollection._parse_one / parse (each attribute is decoded from exactly data[hdr:hdr+length] of the same buffer, the remainder is exactly the suffix after it, the whole block is walked, loop variant), AttributeCollection.unpack (the collection returned is a decode of these bytes under this session context, cache invariant), the fixed-shape attribute decoders Origin/MED/LocalPreference/NextHop/AtomicAggregate/OriginatorID/ClusterList/Communities/Aggregator.from_packet (accepted iff the RFC length/value rule holds, object keeps exactly the bytes). Discharged by z3. Bounded complement (the composition, NLRI/MP decoders, RFC 6793 merge, JSON rendering, Adj-RIB-In): generated well-formed UPDATEs x 3 session kinds through the real Message.unpack -> JSON encoder -> UPDATE handler, compared field by field with an independent RFC reference decoder; histories folded into the expected Adj-RIB-In; End-of-RIB markers.',
+    note='NLRI decoders (INET/MP_REACH/MP_UNREACH), AS_PATH decoding/merge and the JSON renderer are bounded only in this check. Attribute classes enter _parse_one through uninterpreted class flags and an assumed decoder callee.',
+    ref='DESIGN.md §6 C02',
+    technique=PYVC + '; sub-view loop invariants for the TLV walk; bounded differential against an RFC reference decoder',
+)
+CLAIMED['C03'] = dict(
+    category='proof',
+    text='Run-time-error freedom and termination obligations on the decoders under contract: only declared exceptions escape (Notify; and for the attribute walk the re-raised decoder error that the reactor catch-all answers), every loop has a strictly decreasing variant (attribute walk, FlowSpec component/operator walks, socket reader), the attribute walk is iterative (depth 1). Framing layer: header faults never reach a decoder. Discharged by z3. Bounded complement: structured mutations of valid messages of every type (UPDATE, OPEN, NOTIFICATION, KEEPALIVE, ROUTE-REFRESH, OPERATIONAL) through the real decoders with every lazy part forced (parsed collection, JSON event, UPDATE handler); 300/1300-attribute valid UPDATEs; a per-message time bound.',
+    note='"time proportional to the message size" is decided only as: termination, per-loop linear iteration bounds, depth 1, plus a bounded wall-clock guard. OPEN/capability, NOTIFICATION, REFRESH, OPERATIONAL decoders and the EVPN/BGP-LS/SR/MUP/MVPN families are bounded only.',
+    ref='DESIGN.md §6 C03',
+    technique=PYVC + ' (rte / variant obligations); bounded structured-mutation sweep',
+)
+CLAIMED['C08'] = dict(
+    category='proof',
+    text='Contracts on the real AttributeCollection._parse_one (a truncated header or a declared length overrunning the block adds the treat-as-withdraw marker, ends the walk and is never decoded from the shorter slice; a failing decoder never leaves a decoded attribute behind), the final conversion of UpdateCollection._parse_payload (marker present => nothing announced, NLRI moved to withdraws), AttributeCollection.unpack (cache never serves a stale or marked collection), the fixed-shape attribute decoders (refusal iff the RFC rule is broken) and UpdateCollection.split. Discharged by z3. Bounded complement: every attribute of generated UPDATEs x 9 single-attribute corruptions x 3 session kinds through the real pipeline: no announced/stored route unless the message is well-formed per an RFC 7606 reference checker (discard class: attribute gone, rest intact).',
+    note='RFC 7606 class of each attribute type is read from the live class flags in the bounded layer and is an uninterpreted function in the deductive part. Protocol.read_message turns an attribute-discard UPDATE into a NOP (route neither announced nor withdrawn): accepted by the bounded oracle as the statement allows dropping the attribute; not flagged.',
+    ref='DESIGN.md §6 C08',
+    technique=PYVC + '; bounded single-attribute corruption sweep against an RFC 7606 reference checker',
+)
+CLAIMED['C19'] = dict(
+    category='proof',
+    text='Contract on the real AttributeCollection.unpack with the class-level cache as state: the collection returned is a decode of THESE bytes under THIS session context (asn4, aigp) whether fresh or cached, and the cache only ever holds a clean decode of the bytes and context recorded next to it (invariant required and re-established on every path, including exceptional ones); Aggregator.from_packet keeps the width it was decoded with. Discharged by z3. Bounded complement: every message of a mixed sequence over two differently negotiated sessions, with repeated / cross-session / malformed-repeat attribute blocks, decodes (JSON event, markers, Adj-RIB-In) as it does alone in a fresh interpreter.',
+    note='The write-frame scan over all decode-reachable functions and the capability klass.ID registry invariant of DESIGN §6 are not built yet; Capability.klass mutating kls.ID for doubly registered codes (route-refresh Cisco variant) is a known open item (DESIGN §8 row 15b).',
+    ref='DESIGN.md §6 C19',
+    technique=PYVC + ' (class-state invariant with ghost decode provenance); bounded sequence-vs-fresh-process differential',
+)
+
 NOT_YET = 'check not built yet in this session (planned in DESIGN.md §6); not claimed until its obligations are discharged'
 NA = {}
 
